@@ -4,6 +4,7 @@ package main
 
 import (
 	"go/token"
+	"strings"
 
 	"golang.org/x/tools/go/ssa"
 )
@@ -16,6 +17,14 @@ func (a *FA) congValue(v ssa.Value, m int64, active map[ssa.Value]bool) (int64, 
 	}
 	if active[v] {
 		return -1, true // optimistic: "whatever the others say"
+	}
+	// invariant established by C15's own rules (R-WHO + R-COMPACT): TailBitmap.Offset is a multiple of 64
+	if _, f, ok := asFieldLoad(v); ok && f == "Offset" && 64%m == 0 {
+		if u, ok := v.(*ssa.UnOp); ok {
+			if fad, ok := u.X.(*ssa.FieldAddr); ok && strings.HasSuffix(fad.X.Type().String(), "bitmap.TailBitmap") {
+				return 0, true
+			}
+		}
 	}
 	switch x := v.(type) {
 	case *ssa.Phi:
